@@ -674,3 +674,37 @@ func (ts *TSStaged) tsDriver() (loop *tsStmt, before, after []*tsStmt, err strin
 }
 
 var _ = types.Typ
+
+// tsCanon prints a statement list in a canonical one-line form (whitespace-free tokens), used by rules that state
+// what a small TypeScript function must be.
+func tsCanon(ss []*tsStmt) string {
+	var b strings.Builder
+	for _, s := range ss {
+		switch s.Kind {
+		case "if":
+			b.WriteString("if(" + tsJoin(s.Cond) + "){" + tsCanon(s.Then) + "}")
+			if len(s.Else) > 0 {
+				b.WriteString("else{" + tsCanon(s.Else) + "}")
+			}
+		case "while":
+			b.WriteString("while(" + tsJoin(s.Cond) + "){" + tsCanon(s.Then) + "}")
+		case "block":
+			b.WriteString("{" + tsCanon(s.Then) + "}")
+		case "let":
+			b.WriteString("let " + s.Name + "=" + tsJoin(s.Expr) + ";")
+		case "assign":
+			b.WriteString(s.Name + s.Op + tsJoin(s.Expr) + ";")
+		case "return":
+			b.WriteString("return " + tsJoin(s.Expr) + ";")
+		case "switch":
+			b.WriteString("switch(" + tsJoin(s.Cond) + "){")
+			for _, cs := range s.Cases {
+				b.WriteString("case " + tsJoin(cs.Cond) + ":" + tsCanon(cs.Then))
+			}
+			b.WriteString("}")
+		default:
+			b.WriteString(s.Kind + " " + tsJoin(s.Expr) + ";")
+		}
+	}
+	return b.String()
+}
